@@ -42,7 +42,42 @@ impl IdWaker {
 
 thread_local! {
     static IN_WAKE: std::cell::RefCell<Option<Box<dyn FnMut()>>> = const { std::cell::RefCell::new(None) };
-    static IN_CLONE: std::cell::RefCell<Option<Box<dyn FnMut()>>> = const { std::cell::RefCell::new(None) };
+    static IN_CLONE: std::cell::RefCell<Option<Box<dyn FnMut(&'static str)>>> = const { std::cell::RefCell::new(None) };
+}
+
+/// The body's data type: `Bytes`, whose conversion from the chunk (`From<Vec<u8>>`, user code as well)
+/// is a scheduling point of the consumer operation when it runs outside the chunker's mutex.
+pub struct HData(Bytes);
+impl From<Vec<u8>> for HData {
+    fn from(v: Vec<u8>) -> Self {
+        IN_CLONE.with(|h| {
+            if let Some(f) = h.borrow_mut().as_mut() {
+                f("data_from");
+            }
+        });
+        HData(Bytes::from(v))
+    }
+}
+impl From<&'static [u8]> for HData {
+    fn from(v: &'static [u8]) -> Self {
+        HData(Bytes::from_static(v))
+    }
+}
+impl From<&'static str> for HData {
+    fn from(v: &'static str) -> Self {
+        HData(Bytes::from_static(v.as_bytes()))
+    }
+}
+impl Buf for HData {
+    fn remaining(&self) -> usize {
+        self.0.remaining()
+    }
+    fn chunk(&self) -> &[u8] {
+        self.0.chunk()
+    }
+    fn advance(&mut self, n: usize) {
+        self.0.advance(n)
+    }
 }
 
 /// A `Waker` over an `IdWaker` whose `clone` is a scheduling point too (cloning a waker is user
@@ -52,7 +87,7 @@ fn hooked_waker(a: Arc<IdWaker>) -> Waker {
     unsafe fn clone(p: *const ()) -> RawWaker {
         IN_CLONE.with(|h| {
             if let Some(f) = h.borrow_mut().as_mut() {
-                f();
+                f("waker_clone");
             }
         });
         Arc::increment_strong_count(p as *const IdWaker);
@@ -191,7 +226,7 @@ fn run_case(out: &mut Out, case: &Value) {
                 b = b.with_gzip_level(l.as_u64().unwrap_or(6) as u32);
             }
         }
-        b.with_chunk_size(cap).with_gzip_level(level).build::<Bytes, BoxError>()
+        b.with_chunk_size(cap).with_gzip_level(level).build::<HData, BoxError>()
     });
     out.emit(json!({"ev": "reset", "case": case["id"], "cap": cap, "abs": case.get("abs").cloned().unwrap_or(json!({"k": "absent"})),
                     "level": level, "method": method, "mclass": if method == "HEAD" {"head"} else {"other"},
@@ -251,11 +286,19 @@ fn run_case(out: &mut Out, case: &Value) {
             let tx_c = c_msg_tx.clone();
             let rx_c = c_grant_rx2.clone();
             IN_CLONE.with(|h| {
-                *h.borrow_mut() = Some(Box::new(move || {
+                *h.borrow_mut() = Some(Box::new(move |what: &'static str| {
                     if c_probe.is_locked() {
                         return;
                     }
-                    let _ = tx_c.send(CMsg::Yield("waker_clone".to_string()));
+                    // The conversion of a popped chunk into the data type normally runs after the shared
+                    // state has been put back: between the pop and the frame's delivery nothing another
+                    // thread sees is unsettled, and the specification treats the poll as one step.  It is a
+                    // scheduling point only if the state visible to others at this moment is the reader's
+                    // "gone" placeholder although a frame is being produced: then the producer gets its turn.
+                    if what == "data_from" && c_probe.snapshot(&[]).state != "fused" {
+                        return;
+                    }
+                    let _ = tx_c.send(CMsg::Yield(what.to_string()));
                     let _ = rx_c.lock().unwrap().recv();
                 }))
             });
